@@ -108,6 +108,82 @@ Definition incall_all_unreadable (j : json) : bool :=
 Definition names_no_state (b : body) : bool :=
   match b with BadSyntax => false | Doc j => incall_all_unreadable j end.
 
+(* ---- a third class: user lists that name nobody ----------------------------------------------
+   "In call state of participants changed" / "Participants list changed" (API documentation):
+       {"type": "incall", "incall": {"incall": state, "changed": [entries], "users": [entries]}}
+       {"type": "participants", "participants": {"changed": [entries], "users": [entries]}}
+   Every entry is an object describing one participant; "sessionId" is the
+   Nextcloud room session id of that participant, "0" meaning "not in the
+   meeting".  The server replaces it by the id of the signaling session and drops
+   entries it finds no session for.  An entry names somebody only if its
+   "sessionId" is a string, not "0", that is the room session id of a session known
+   to the server.  A request of one of the two types in which no entry of
+   "users" or "changed" names somebody (no "sessionId", one that is not a string,
+   "0", an unknown id, an entry that is not an object, lists missing or empty)
+   tells nothing about anybody: whatever the server answers, no client must
+   receive an event because of it.
+   [known]: the room session ids that exist on the server.  Judged when the document
+   has a single sub-object of its type; in it *every* occurrence of "users" /
+   "changed" must be free of entries naming somebody, every occurrence of
+   "sessionId" inside an entry is looked at, and for "incall" no occurrence of
+   "all" may be true (that form is the other message of the documentation). *)
+Definition names_session (known : list string) (v : json) : bool :=
+  match v with
+  | JStr s => negb (String.eqb s "0") && existsb (String.eqb s) known
+  | _ => false
+  end.
+
+Definition entry_names_nobody (known : list string) (e : json) : bool :=
+  match e with
+  | JObj ems => negb (existsb (names_session known) (occurrences "sessionId" ems))
+  | _ => true
+  end.
+
+Definition list_names_nobody (known : list string) (v : json) : bool :=
+  match v with
+  | JArr l => forallb (entry_names_nobody known) l
+  | _ => true
+  end.
+
+Definition is_true (v : json) : bool := match v with JBool true => true | _ => false end.
+
+Definition sub_names_nobody (known : list string) (incall : bool) (sub : members) : bool :=
+  (negb incall || negb (existsb is_true (occurrences "all" sub))) &&
+  forallb (list_names_nobody known) (occurrences "users" sub) &&
+  forallb (list_names_nobody known) (occurrences "changed" sub).
+
+Definition doc_names_nobody (known : list string) (j : json) : bool :=
+  match j with
+  | JObj ms =>
+      match effective_type ms with
+      | Some ty =>
+          (String.eqb ty "incall" || String.eqb ty "participants") &&
+          match occurrences ty ms with
+          | [JObj sub] => sub_names_nobody known (String.eqb ty "incall") sub
+          | _ => false
+          end
+      | None => false
+      end
+  | _ => false
+  end.
+
+Definition names_nobody (known : list string) (b : body) : bool :=
+  match b with BadSyntax => false | Doc j => doc_names_nobody known j end.
+
+(* the fixture of the harness: one client session (public id written "@SID@" in
+   the cases files, the harness substitutes the real id in the request text)
+   of user "c11-user" with Nextcloud room session "c11-rs"; it is in the addressed
+   room (exists = true, fresh room with the properties the test backend hands
+   out) or in some other room (exists = false). *)
+Definition fixture_sid : string := "@SID@".
+Definition fixture_user : string := "c11-user".
+Definition fixture_rs : string := "c11-rs".
+Definition fixture_props : json := JObj [("prop1", JStr "value1")].
+
+(* the room session ids that exist during a run of the harness: the fixture's one
+   (requests never create any; a deleted room takes its sessions' ids with it) *)
+Definition run_known : list string := [fixture_rs].
+
 (* ---- observations of the implementation ---------------------------------------------------- *)
 (* what the harness saw for one request: HTTP status (0 = the connection was closed
    without a reply), did the process die, did the server answer the probes sent
@@ -121,13 +197,15 @@ Definition trace := list (body * iobs).
 (* the property, per request: answered with 2xx or 4xx, server running and
    responsive afterwards, and a malformed request reached no client - neither
    one the server refuses (malformed) nor an "incall all" request that names no
-   state (names_no_state) *)
+   state (names_no_state) nor an "incall" / "participants" request whose lists name
+   nobody (names_nobody) *)
 Definition P_one (b : body) (o : iobs) : bool :=
   let c := i_status o in
   (((200 <=? c) && (c <? 300)) || ((400 <=? c) && (c <? 500)))%Z &&
   negb (i_died o) && i_responsive o &&
   (negb (malformed b) || match i_events o with [] => true | _ => false end) &&
-  (negb (names_no_state b) || match i_events o with [] => true | _ => false end).
+  (negb (names_no_state b) || match i_events o with [] => true | _ => false end) &&
+  (negb (names_nobody run_known b) || match i_events o with [] => true | _ => false end).
 
 Definition P_C11 (tr : trace) : bool := forallb (fun e => P_one (fst e) (snd e)) tr.
 
@@ -174,16 +252,7 @@ Definition events_agree (st : state) (expected : list evkind) (o : iobs) : bool 
     st_room st && existsb is_disinvite (i_events o) && sub_events (i_events o) expected
   else same_events expected (i_events o).
 
-(* the fixture of the harness: one client session (public id written "@SID@" in
-   the cases files, the harness substitutes the real id in the request text)
-   of user "c11-user" with Nextcloud room session "c11-rs"; it is in the addressed
-   room (exists = true, fresh room with the properties the test backend hands
-   out) or in some other room (exists = false). *)
-Definition fixture_sid : string := "@SID@".
-Definition fixture_user : string := "c11-user".
-Definition fixture_rs : string := "c11-rs".
-Definition fixture_props : json := JObj [("prop1", JStr "value1")].
-
+(* the fixture state (names above, before P_one) *)
 Definition fixture (exists_ numeric : bool) : state := {|
   st_room := exists_;
   st_members := if exists_ then [fixture_sid] else [];
